@@ -21,7 +21,7 @@ STATS = Counter()
 RULE = 'see tools/gen/c02.py'
 ASSUMPTIONS = [
     'Uint::bits / bits_vartime / shl / shr (C05) and ConstChoice::from_u32_* (C06) are taken on values in the model',
-    'reciprocal / div2by1 are observed through public API (Reciprocal Debug output, two-limb div_rem_limb_with_reciprocal); div3by2 only through div_rem* (no hook)',
+    'short_div / reciprocal / div2by1 / div3by2 / Reciprocal fields are also observed directly through crypto_bigint::verif_hooks (c02.hook.*); short_div only for dividend_bits - divisor_bits in 0..=31 (beyond that release masks the shift amount and the overflow-checking build panics)',
 ]
 
 FIXED_Q = [1, 2, 3, 4, 6, 8, 16, 32, 64]
@@ -234,6 +234,108 @@ def recip_family(rng, reps):
     return ds
 
 
+def norm_mantissas(rng, reps):
+    """normalised 64-bit divisors (top bit set): the edge mantissas of the reciprocal"""
+    T = 1 << 63
+    ms = [T, T + 1, T + 2, WMAX, WMAX - 1, WMAX - 2, T | (1 << 62), T | ((1 << 62) - 1), T | (1 << 55), T | ((1 << 55) - 1),
+          (0x1ff << 55), (0x1ff << 55) | ((1 << 55) - 1), (0x100 << 55) | ((1 << 55) - 1), T | (1 << 24), T | ((1 << 24) - 1),
+          0xaaaaaaaaaaaaaaaa, 0xd555555555555555, T | 0xffffffff, T | (1 << 32)]
+    ms += [T | rng.getrandbits(63) for _ in range(reps)]
+    return ms
+
+
+def hook_family(rng, quick):
+    """crate-internal building blocks through verif_hooks, on their own input spaces"""
+    out = []
+    add = out.append
+    # ---- short_div: the call made by `reciprocal` for every 9-bit head, the whole contract grid of bit lengths,
+    # and inputs outside the contract (dividend / divisor with more bits than announced, divisor 0, overflowing shift)
+    for d9 in range(256, 512):
+        add(f"c02.hook.short_div {hx((1 << 19) - 3 * (1 << 8))} 19 {hx(d9)} 9")
+    for db in range(1, 33):
+        for vb in range(1, db + 1):
+            xs = {(1 << db) - 1, rng.getrandbits(db)}
+            ys = {rng.choice([1 << (vb - 1), (1 << vb) - 1]), (1 << (vb - 1)) | rng.getrandbits(vb - 1)}
+            if not quick:
+                xs |= {1 << (db - 1), 0, 1} | {rng.getrandbits(db) for _ in range(4)}
+                ys |= {1 << (vb - 1), (1 << vb) - 1} | {(1 << (vb - 1)) | rng.getrandbits(vb - 1) for _ in range(3)}
+            for x in sorted(xs):
+                for y in sorted(ys):
+                    add(f"c02.hook.short_div {hx(x)} {db} {hx(y)} {vb}")
+                    STATS['short_div_contract'] += 1
+            # exact multiples and their neighbours
+            y = (1 << (vb - 1)) | rng.getrandbits(vb - 1)
+            q = rng.randrange(((1 << db) - 1) // y + 1)
+            for x in ((q * y, q * y + y - 1, max(q * y - 1, 0)) if not quick else (q * y + rng.choice([0, y - 1]),)):
+                if x < (1 << db):
+                    add(f"c02.hook.short_div {hx(x)} {db} {hx(y)} {vb}")
+    for _ in range(300 if quick else 5000):           # outside the contract (mirror only): shift amount 0..=31
+        vb = rng.randrange(0, 33)
+        db = rng.randrange(vb, min(vb + 32, 64))
+        x = rng.choice([rng.getrandbits(32), (1 << 32) - 1, rng.getrandbits(rng.randrange(1, 33)), 1 << 31])
+        y = rng.choice([rng.getrandbits(32), (1 << 32) - 1, 0, 1, rng.getrandbits(rng.randrange(1, 33)), 1 << 31])
+        add(f"c02.hook.short_div {hx(x)} {db} {hx(y)} {vb}")
+        STATS['short_div_outside'] += 1
+    # ---- Reciprocal::new fields: all 64 shifts x edge mantissas; raw reciprocal on the mantissas
+    ms = norm_mantissas(rng, 6 if quick else 60)
+    for s in range(64):
+        for m in ms:
+            add(f"c02.hook.recip_fields {hx(m >> s)}")
+        add(f"c02.hook.recip_fields {hx(1 << (63 - s))}")
+        add(f"c02.hook.recip_fields {hx((1 << (64 - s)) - 1)}")
+    add("c02.hook.recip_fields 0")
+    for m in ms + [(top << 55) | rng.getrandbits(55) for top in range(256, 512)]:
+        add(f"c02.hook.reciprocal {hx(m)}")
+    # ---- div2by1 with the reciprocal of ANY non-zero divisor (normalised inside Reciprocal::new), u1 < dn
+    for d in [1, 2, 3, WMAX, WMAX - 1, 1 << 63, (1 << 63) + 1, (1 << 63) - 1, 1 << 32] + [limb_choice(rng) or 1 for _ in range(30 if quick else 600)]:
+        dn = d << (64 - d.bit_length())
+        for (u1, u0) in [(0, 0), (dn - 1, WMAX), (dn - 1, 0), (0, WMAX), (dn // 2, dn), (rng.randrange(dn), limb_choice(rng)),
+                         (rng.randrange(dn), rng.getrandbits(64))]:
+            d2by1_ev(u1, u0, dn, STATS)
+            add(f"c02.hook.div2by1 {hx(u1)} {hx(u0)} {hx(d)}")
+        for _ in range(4):                              # remainders 0 / dn-1 after each fix-up
+            q = rng.choice([WMAX, WMAX - 1, rng.getrandbits(64), 1, 0])
+            u = q * dn + rng.choice([0, 1, dn - 1, dn - 2, rng.randrange(dn)])
+            if (u >> 64) < dn:
+                d2by1_ev(u >> 64, u & WMAX, dn, STATS)
+                add(f"c02.hook.div2by1 {hx(u >> 64)} {hx(u & WMAX)} {hx(d)}")
+    # ---- div3by2: q_maxed (u2 = v1), estimates one / two too large (v0 large, u0 small), exact quotients
+    for v1 in [WMAX, 1 << 63, (1 << 63) + 1, WMAX - 1] + [rng.getrandbits(63) | (1 << 63) for _ in range(40 if quick else 1500)]:
+        for v0 in [0, 1, WMAX, WMAX - 1, 1 << 63, rng.getrandbits(64)]:
+            v = (v1 << 64) | v0
+            cases = [(v1, 0, 0), (v1, WMAX, WMAX), (v1, v0, 0), (v1, rng.getrandbits(64), rng.getrandbits(64)), (0, 0, 0), (0, 0, WMAX),
+                     (v1 - 1, WMAX, WMAX), (rng.randrange(v1 + 1), limb_choice(rng), limb_choice(rng)), (rng.randrange(v1), rng.getrandbits(64), 0)]
+            for _ in range(3):
+                q = rng.choice([WMAX, WMAX - 1, rng.getrandbits(64), 1, 2])
+                u = q * v + rng.choice([0, 1, v - 1, rng.randrange(v)]) - rng.choice([0, 0, 1])
+                if 0 <= u and (u >> 128) <= v1:
+                    cases.append((u >> 128, (u >> 64) & WMAX, u & WMAX))
+            for (u2, u1, u0) in cases:
+                u = (u2 << 128) | (u1 << 64) | u0
+                # correction rounds actually needed on top of the 2-by-1 estimate (statistics only)
+                if u2 == v1:
+                    STATS['hook_d3by2_qmaxed'] += 1
+                else:
+                    STATS[f"hook_d3by2_corr{min(((u2 << 64) | u1) // v1, WMAX) - min(u // v, WMAX)}"] += 1
+                add(f"c02.hook.div3by2 {hx(u2)} {hx(u1)} {hx(u0)} {hx(v1)} {hx(v0)}")
+    # ---- Reciprocal::default / conditional_select, then a division with the selected reciprocal
+    for L in ([1, 2, 3, 4, 8, 16] if quick else FIXED_T[:-1]):
+        m = 1 << (64 * L)
+        for d in [1, WMAX, WMAX - 1, 1 << 63, 3, limb_choice(rng) or 1, rng.getrandbits(64) or 1]:
+            for n in [0, m - 1, WMAX % m, (WMAX * WMAX) % m, (m - 1) // WMAX * WMAX, (m - 1) // WMAX * WMAX - 1, value(rng, L), rng.getrandbits(64 * L)]:
+                for c in range(4):
+                    add(f"c02.u.recip_select {L} {hx(n % m)} {hx(d)} {c}")
+        add(f"c02.u.recip_select {L} 1 0 1")
+    for NL in ([1, 2, 5, 17] if quick else [1, 2, 3, 5, 9, 17, 33, 70]):
+        m = 1 << (64 * NL)
+        for d in [1, WMAX, 1 << 63, limb_choice(rng) or 1]:
+            for n in [m - 1, (m - 1) // WMAX * WMAX, value(rng, NL), rng.getrandbits(64 * NL)]:
+                for c in range(4):
+                    add(f"c02.b.recip_select {NL} {hx(n % m)} {hx(d)} {c}")
+    STATS['hook_lines'] = len(out)
+    return out
+
+
 def gen(tier, rng):
     global RULE
     STATS.clear()
@@ -263,6 +365,9 @@ def gen(tier, rng):
     for (u1, u0, d) in d2:
         d2by1_ev(u1, u0, d, STATS)
         add(f"c02.div2by1 {hx(u1)} {hx(u0)} {hx(d)}")
+
+    # ---- crate-internal building blocks (verif_hooks) and the default / selected reciprocal
+    lines.extend(hook_family(rng, quick))
 
     # ---- single-limb divisor (fixed and boxed)
     for L in widths:
